@@ -4,7 +4,7 @@ import "math/rand"
 
 func init() {
 	register(recvProp{id: "C12", w: 1, gen: genC12,
-		rule: "for each generated inbound stream (mixed stanzas with text, entities, nested unknown elements; <r/>, <a/>), the connection is cut at EVERY byte offset of the stream (exhaustive per stream), SM on/off, plus write faults at each answer; goroutines of the library are counted after quiescence; distinct = (stream, offset); non-trivial = at least 2 complete stanzas before the cut"})
+		rule: "for each generated inbound stream (mixed stanzas with text, entities, nested unknown elements; <r/>, <a/>), the connection is cut at EVERY byte offset of the stream (exhaustive per stream), SM on/off, plus write faults at each answer; one stream in three is read through the real XMPPTransport path (traffic logger + buffered decoder) over a scripted net.Conn whose last bytes arrive together with the read error; goroutines of the library are counted after quiescence; distinct = (stream, offset); non-trivial = at least 2 complete stanzas before the cut"})
 }
 
 func genC12(r *rand.Rand, tier string) []interface{} {
@@ -15,11 +15,23 @@ func genC12(r *rand.Rand, tier string) []interface{} {
 	var out []interface{}
 	for s := 0; s < streams; s++ {
 		items := genItems(r, 4+r.Intn(6), false, false)
+		for i := range items { // every byte offset is cut: keep the texts short
+			if items[i].T == "stanza" && items[i].Var%len(textPool) >= 6 {
+				items[i].Var -= items[i].Var % len(textPool)
+				items[i].render()
+			}
+		}
 		base := recvIn{SM: s%2 == 0, Items: items, Cut: -1, LeakCheck: true}
+		// one stream in three runs over the real XMPPTransport read path with the traffic logger;
+		// there, for odd offsets, the last bytes arrive together with the read error
+		logged := s%3 == 2
 		total := len(base.body())
 		for cut := 0; cut <= total; cut++ {
 			in := base
 			in.Cut = cut
+			if logged {
+				in.Logged, in.ErrWithData, in.LeakCheck = true, cut%2 == 1, false
+			}
 			out = append(out, in)
 		}
 		// write fault at each answer
